@@ -131,6 +131,23 @@ func (c *ctx) runOp(line string) string {
 		return out
 	case "conc":
 		return c.concurrent(ws, line)
+	case "reject":
+		// oracle only: the text has no documented meaning (a sign in front of something that is
+		// not a number); accepting it would hand out a value or JSON the input does not denote
+		if len(ws) != 3 {
+			return "bad-op"
+		}
+		text := hx.UnHex(ws[1])
+		out, errs := jsonx.ToJSON(text)
+		var box interface{}
+		uerr := jsonx.Unmarshal(text, &box)
+		if errs == nil || uerr == nil {
+			got, _ := json.Marshal(box)
+			c.rep.Fail(ws[2], fmt.Sprintf("%q is accepted: ToJSON = %q (errors: %v), Unmarshal = %s (error: %v); a sign may only precede a number",
+				text, out, errs != nil, got, uerr), []string{line})
+			return "accepted"
+		}
+		return "rejected"
 	case "dec":
 		if len(ws) != 3 {
 			return "bad-op"
@@ -529,6 +546,24 @@ func main() {
 			i := strings.Index(t, "/")
 			g.add(fmt.Sprintf("trail %s %s after-empty-comment", hx.Hex([]byte(t[:i])), hx.Hex([]byte(t[i:]))))
 			g.add("unm " + hx.Hex([]byte(t)))
+		}
+		// a sign in front of anything but a number is not JSONx
+		for _, sg := range []string{"+", "-"} {
+			for _, gap := range []string{"", " ", "\n", " /**/ "} {
+				for _, val := range []string{`"x"`, "`x`", `""`, "true", "false", "null", "{}", "[]", "[1]", "{a: 1}", "a", "a.b",
+					"-5", "+5", "-1.5", "- 5", "+-5", ",", "}", ""} {
+					for _, wrap := range []string{"%s", "[%s]", "{k: %s}", "[1, %s,]"} {
+						if (gap != "" || wrap != "%s") && g.r.Intn(3) != 0 {
+							continue
+						}
+						t := fmt.Sprintf(wrap, sg+gap+val)
+						g.add("tojson " + hx.Hex([]byte(t)))
+						g.add("unm " + hx.Hex([]byte(t)))
+						g.add(fmt.Sprintf("reject %s sign-before-non-number-accepted", hx.Hex([]byte(t))))
+						rep.Count("sign-before-non-number")
+					}
+				}
+			}
 		}
 		// keywords are not identifiers: as bare keys they must be rejected, never converted
 		for _, t := range []struct{ text, want string }{
